@@ -33,7 +33,7 @@ def digests_main(props, n, stride, offset, out):
             try:
                 v = prop.run(case)
                 res[f'{pid}/{index}'] = [v.digests, sorted(
-                    x['sig'] for x in v.violations)]
+                    x['sig'] for x in v.violations), v.aborted]
             except Exception as e:
                 res[f'{pid}/{index}'] = ['EXC ' + repr(e)]
             sim.cleanup_between_runs()
@@ -93,8 +93,14 @@ def main(argv):
                 return 2
             with open(out) as f:
                 data[variant].update(json.load(f))
-        bad = [k for k in data['a'] if data['a'][k] != data['b'].get(k)]
-        hs = [k for k in data['a'] if data['a'][k] != data['h'].get(k)]
+        def timed(x):
+            # runs cut by a wall-clock cap are inconclusive by construction
+            return x is not None and len(x) > 2 and x[2] in ('wallcap', 'hang')
+
+        bad = [k for k in data['a'] if data['a'][k] != data['b'].get(k)
+               and not timed(data['a'][k]) and not timed(data['b'].get(k))]
+        hs = [k for k in data['a'] if data['a'][k] != data['h'].get(k)
+              and not timed(data['a'][k]) and not timed(data['h'].get(k))]
         exc = [k for k, v in data['a'].items() if str(v[0]).startswith('EXC')]
         print(f'[dst] determinism: {len(data["a"])} cases x 2 interpreters, '
               f'{len(bad)} diverged; {len(hs)} differ under another '
